@@ -14,11 +14,11 @@ Statically decided clauses:
   6. Python front end maps constructor errors to ValueError (thorough tier, pybindings config)   (R2)
 Not decided: that an accepted table satisfies C03 numerically.
 """
-from vlib import sym, rules, effects
+from vlib import sym, rules, effects, anchors
 from vlib.facts import callee
 
 MODEL_PREFIX = 'stream::model::'
-VALIDATOR_NAMES = ('accumulate_nonzero_probabilities', 'fast_quantized_cdf', 'perfectly_quantized_probabilities')
+VALIDATOR_ROLES = ('fixed_point', 'float_fast', 'float_perfect')
 
 
 def model_adts(F):
@@ -61,27 +61,36 @@ def rejecting_guards_before(res, upto_event_index, paths, body):
     return n
 
 
-def validator_ok_before(res, idx):
+_VDEFS = {}
+
+
+def vdefs(F):
+    k = id(F)
+    if k not in _VDEFS:
+        _VDEFS[k] = anchors.validator_defs(F)
+    return _VDEFS[k]
+
+
+def validator_ok_before(res, idx, F=None):
+    """Role ('fixed_point' | 'float_fast' | 'float_perfect') of a shared validator whose Ok arm was passed before event idx."""
+    defs = vdefs(F) if F is not None else {}
     for e in res.events[:idx]:
-        if e['kind'] == 'call' and e['name'] in VALIDATOR_NAMES:
+        if e['kind'] == 'call' and e['callee'] in defs:
             rt = e['result']
             for t, v, _ in res.preds:
                 if t[0] == 'discr' and sym.contains(t[1], lambda x: x == rt):
                     vn = sym.discr_variant(t, v)
                     if vn in ('Continue', 'Ok'):
-                        return e['name']
+                        return defs[e['callee']]
     return None
 
 
 def check_validator_reachability(ctx, F):
     adts = model_adts(F)
-    validators = {}
-    for b in F.bodies:
-        if b.promoted is None and b.name in VALIDATOR_NAMES and b.dk == 'Fn':
-            validators[b.name] = b
-    for v in VALIDATOR_NAMES:
+    validators = anchors.validators(F)
+    for v in VALIDATOR_ROLES:
         if v not in validators:
-            ctx.bad('R7', 'anchor: shared validator', v, 'validator function not found', key='R7/anchor/' + v)
+            ctx.bad('R7', 'anchor: shared validator', v, 'no private `fn .. -> Result<_, ()>` of the categorical module plays the role `%s`' % v, key='R7/anchor/validator-' + v)
     # producers
     info = {}
     for b in F.bodies:
@@ -128,9 +137,9 @@ def check_validator_reachability(ctx, F):
                 if site is None:
                     continue
                 n_here += 1
-                v = validator_ok_before(r, i)
+                v = validator_ok_before(r, i, F)
                 if v:
-                    why = 'after Ok of ' + v
+                    why = 'after Ok of the %s validator' % v
                 elif conv:
                     why = 'view/conversion of an existing model value'
                 elif rejecting_guards_before(r, i, paths, b) >= 1 and not private(b):
@@ -217,7 +226,8 @@ def has_len_guard(F, b):
 
 def output_validated(F, b):
     """Does the ingester (or every constructor that uses it) pass the result through the fixed-point validator?"""
-    return any((callee(t) or {}).get('name') == 'accumulate_nonzero_probabilities' for _, t in b.calls())
+    fp = anchors.validators(F).get('fixed_point')
+    return fp is not None and any((callee(t) or {}).get('def') == fp.defpath for _, t in b.calls())
 
 
 def check_sibling_agreement(ctx, F):
@@ -225,7 +235,7 @@ def check_sibling_agreement(ctx, F):
     for b in F.bodies:
         if b.promoted is not None or is_test(b) or b.dk not in ('Fn', 'AssocFn'):
             continue
-        if b.name in ('fast_quantized_cdf', 'perfectly_quantized_probabilities') and b.dk == 'Fn':
+        if b.defpath in [v.defpath for r_, v in anchors.validators(F).items() if r_ in ('float_fast', 'float_perfect')]:
             ingesters.append(b)
         if b.name == 'from_floating_point_probabilities_fast' and b.self_adt == 'stream::model::categorical::lazy_contiguous::LazyContiguousCategoricalEntropyModel':
             ingesters.append(b)
@@ -233,13 +243,14 @@ def check_sibling_agreement(ctx, F):
         ctx.bad('R4', 'floor: float-table ingesters', 'stream::model::categorical', 'only %d of the 3 float-table ingesters found' % len(ingesters), key='R4/floor/ingesters')
     for b in ingesters:
         ctx.touch(b, calls=sum(1 for _ in b.calls()))
-        key = 'R4/sign-check/' + b.defpath
+        role_name = vdefs(F).get(b.defpath)
+        key = 'R4/sign-check/' + (('validator:' + role_name) if role_name else b.defpath)
         role = 'monotonicity is enforced: every weight passes a sign test (or the fixed-point cdf is validated)'
         if has_sign_check(F, b) or output_validated(F, b):
             ctx.ok('R4', role, b.defpath, 'element-wise comparison with zero() found' if has_sign_check(F, b) else 'output passes accumulate_nonzero_probabilities', key=key)
         else:
             ctx.bad('R4', role, b.defpath, 'no element is ever compared with zero and the resulting cdf is not validated: a negative weight (e.g. [3.0, -2.0, 1.0], positive sum) yields a non-monotone cdf', key=key, loc=rules.loc(b))
-        k2 = 'R4/length-guard/' + b.defpath
+        k2 = 'R4/length-guard/' + (('validator:' + role_name) if role_name else b.defpath)
         (ctx.ok if has_len_guard(F, b) else ctx.bad)('R4', 'tables with fewer than two entries are rejected', b.defpath,
                                                      'len < 2 guard present' if has_len_guard(F, b) else 'no `len < 2` rejection found', key=k2)
     # (symbols, probabilities) constructors: no silent truncation through zip
@@ -345,7 +356,7 @@ def check_two_point(ctx, F):
                         found[k] = found.get(k, True) and guarded
         for k, guarded in sorted(found.items()):
             n += 1
-            key = 'R2/two-point/%s/%s' % (b.defpath, k)
+            key = 'R2/two-point/%s/%s' % (('validator:' + vdefs(F)[b.defpath]) if b.defpath in vdefs(F) else b.defpath, k)
             role = 'decision stays meaningful at PRECISION == BITS'
             if guarded:
                 ctx.ok('R2', role, b.defpath, '`%s` is accompanied by a zero / precision test on every path' % k, key=key)
@@ -356,8 +367,9 @@ def check_two_point(ctx, F):
 
 
 def check_final_decision(ctx, F):
-    b = [x for x in F.bodies if x.promoted is None and x.name == 'accumulate_nonzero_probabilities' and x.dk == 'Fn']
-    key = 'R3/final-decision-uses-accumulators/accumulate_nonzero_probabilities'
+    fp = anchors.validators(F).get('fixed_point')
+    b = [fp] if fp is not None else []
+    key = 'R3/final-decision-uses-accumulators/validator:fixed_point'
     role = 'accept decision depends on the running sum, the total and the wrap/zero counter'
     if not b:
         ctx.bad('R3', role, 'accumulate_nonzero_probabilities', 'validator not found', key=key)
@@ -369,31 +381,47 @@ def check_final_decision(ctx, F):
     if not oks:
         ctx.unresolved('R3', role, b.defpath, 'no accepting path', key=key)
         return
-    names = b.names()
+    # accumulators = loop-carried plain locals that are never handed out by &mut inside the loop (those are the iterators)
     want = {}
-    for l, nme in names.items():
-        if nme in ('accum', 'laps_or_zeros'):
-            want[nme] = l
+    names = b.names()
+    for r in paths or []:
+        if r.end != 'backedge':
+            continue
+        muts = set()
+        for e in r.events:
+            if e['kind'] == 'call':
+                for a in e['args']:
+                    if a[0] == 'ref' and a[2] and len(a[1]) == 1:
+                        muts.add(a[1][0])
+        for e in r.events:
+            if e['kind'] == 'loop_enter':
+                for path in e['pre']:
+                    if len(path) == 1 and isinstance(path[0], int) and path[0] not in muts and path[0] > b.arg_count:
+                        # only locals that the loop body really updates from their own previous value
+                        fin = ev.final_read(r, path)
+                        if sym.contains(fin, lambda y: isinstance(y, tuple) and y and y[0] == 'loop' and y[2] == path) and fin != ('loop', e['head'], path):
+                            want[names.get(path[0], '_%d' % path[0])] = path[0]
     bad = None
     for r in oks:
         txt = ' '.join(sym.show(t) for t, v, _ in r.preds)
         for nme, l in want.items():
-            if ('_%d' % l) not in txt:
-                bad = 'an accepting path does not test `%s`' % nme
+            if (':_%d' % l) not in txt:
+                bad = 'an accepting path does not test the accumulator `%s`' % nme
         if 'wrapping_pow2' not in txt:
             bad = 'an accepting path does not compare with the total 2^PRECISION'
     if bad or len(want) < 2:
         ctx.bad('R3', role, b.defpath, bad or 'accumulator locals not found', key=key, loc=rules.loc(b))
     else:
-        ctx.ok('R3', role, b.defpath, '%d accepting path(s), each controlled by accum, total and laps_or_zeros' % len(oks), key=key)
+        ctx.ok('R3', role, b.defpath, '%d accepting path(s), each controlled by the total and all %d loop accumulators (%s)' % (len(oks), len(want), ', '.join(sorted(want))), key=key)
 
 
 def check_inferred_probability(ctx, F):
     """The probability the validator infers for the last symbol (total - accum) is non-zero on every path that
     hands it on: either accum < total was established, or the configuration is PRECISION == BITS (total wraps to
     0 and the sum of at least one non-zero, non-wrapping probability is not 0 - listed assumption)."""
-    b = [x for x in F.bodies if x.promoted is None and x.name == 'accumulate_nonzero_probabilities' and x.dk == 'Fn']
-    key = 'R8/inferred-probability-nonzero/accumulate_nonzero_probabilities'
+    fp = anchors.validators(F).get('fixed_point')
+    b = [fp] if fp is not None else []
+    key = 'R8/inferred-probability-nonzero/validator:fixed_point'
     role = 'the inferred last probability cannot be zero'
     if not b:
         ctx.bad('R8', role, 'accumulate_nonzero_probabilities', 'validator not found', key=key)
